@@ -3,7 +3,7 @@
 # takes /tmp/r2seed_<PROP>/<mN>, confirms it at /repo's HEAD in the scratch worktree /tmp/r2_<PROP>, and on
 # success stores it as /verif/seeded/<PROP>-<seed-name>
 p=$1; m=$2; name=$p-$3
-src=/tmp/r2seed_$p/$m; wt=/tmp/r2_$p; dst=/verif/seeded/$name
+R=${ROUND:-r2}; src=/tmp/${R}seed_$p/$m; wt=/tmp/${R}_$p; dst=/verif/seeded/$name
 [ -d $src ] || { echo "no $src"; exit 2; }
 head=$(git -C /repo rev-parse --short HEAD)
 git -C $wt checkout -q -- . ; git -C $wt clean -fdq -e target; git -C $wt checkout -q --detach $head || exit 3
@@ -20,14 +20,14 @@ print(demo, dest, args)
 PY
 )
 echo "demo=$demo dest=$dest args=$args"
-rm -rf $dst; mkdir -p $dst; cp $src/patch.diff $src/$demo $src/README.txt $src/meta.json $dst/
+rm -rf $dst; mkdir -p $dst; cp $src/patch.diff $src/$demo $src/README.txt $src/meta.json $dst/; [ -f $src/demo.diff ] && cp $src/demo.diff $dst/
 out=$(/verif/tools/confirm_seed.sh $wt $dst $demo $dest $args 2>&1 | tail -2)
 echo "$out"
 if echo "$out" | grep -q CONFIRMED; then
 python3 - $dst "$head" "$out" "$dest" "$args" <<'PY'
 import json,sys
 p=sys.argv[1]+"/meta.json"; m=json.load(open(p))
-m["source"]="independent sub-agent (round 2: asked for subtle changes) given only the property text and a scratch worktree"
+m["source"]="independent sub-agent (later round: asked for subtle changes in less obvious places) given only the property text and a scratch worktree"
 m["confirmed_by"]="tools/confirm_seed.sh in a scratch worktree: demo passes without the patch, fails with it, `cargo test --workspace --offline` green with it"
 m["confirmed_at_repo_commit"]=sys.argv[2]
 m["confirm_result"]=sys.argv[3].split("\n")
